@@ -262,6 +262,17 @@ func (ev *evaluator) ident(name string) Val {
 				return v
 			}
 		}
+		if f.dbg != nil {
+			if v, ok := f.dbg[name]; ok {
+				return v
+			}
+			if p, ok := f.dbg["&"+name]; ok {
+				v := r.load(ev.st, p)
+				if v.K != KInvalid {
+					return v
+				}
+			}
+		}
 		if f.parent == nil {
 			break
 		}
@@ -678,6 +689,14 @@ func (ev *evaluator) call(e *Expr) Val {
 			t = sApp("s_base", x.S)
 		}
 		return boolVal("(> (root " + t + ") " + h0 + ")")
+	case "allocated":
+		// the reference denotes an object that exists in the current state
+		x := arg(0)
+		t := ev.term(x)
+		if x.K == KSlice {
+			t = sApp("s_base", x.S)
+		}
+		return boolVal("(<= (root " + t + ") " + r.get(ev.st, "g|$heap") + ")")
 	case "ite":
 		savedPol := ev.pol
 		ev.pol = 0
@@ -742,6 +761,7 @@ func (ev *evaluator) call(e *Expr) Val {
 		if r.inQuant == 0 && !r.once["b2s|"+t] {
 			r.once["b2s|"+t] = true
 			r.facts.Assert(fmt.Sprintf("(=> (>= (s_len %s) 0) (= (slen %s) (s_len %s)))", x.S, t, x.S))
+			r.facts.Assert(fmt.Sprintf("(=> (= (s_len %s) 1) (= %s (char_str (select (select %s (s_base %s)) (s_off %s)))))", x.S, t, r.get(ev.st, key), x.S, x.S))
 		}
 		return Val{K: KStr, T: types.Typ[types.String], S: t}
 	case "domain":
